@@ -18,7 +18,8 @@ def digests(props, n, base=777):
             seed = runner.run_seed(base, prop, i)
             t = Tape(seed=seed)
             r = eng.run(t, prop, "quick")
-            ds.append([r.digest, len(t.used), r.steps])
+            # same hash seed: everything must agree; across hash seeds: xdigest (see DESIGN.md section 8)
+            ds.append([r.digest, len(t.used), r.steps, r.xdigest if r.xdigest is not None else r.digest])
         out[prop] = ds
     return out
 
@@ -30,7 +31,7 @@ def determinism(tier):
     b = digests(props, n)
     bad = [p for p in props if a[p] != b[p]]
     verif = os.path.dirname(os.path.dirname(os.path.abspath(__file__)))
-    for hs in ("1", "77"):
+    for hs in ("0", "1", "77"):
         env = dict(os.environ, PYTHONHASHSEED=hs)
         code = ("import sys,json; sys.path.insert(0,%r); sys.path.insert(0,%r);"
                 "from dst import selftest; print(json.dumps(selftest.digests(%r,%d)))" %
@@ -41,11 +42,13 @@ def determinism(tier):
             return 2
         c = json.loads(p.stdout.strip().splitlines()[-1])
         for pr in props:
-            if c[pr] != a[pr]:
+            if hs == "0" and c[pr] != a[pr]:
+                bad.append(f"{pr}@fresh-interpreter")      # same hash seed: the full trace digest must agree
+            if [x[3] for x in c[pr]] != [x[3] for x in a[pr]]:
                 bad.append(f"{pr}@hashseed{hs}")
     if bad:
         print("HARNESS-ERROR: nondeterministic engines:", sorted(set(bad)))
         return 2
-    print(f"[selftest-determinism] {len(props)} properties x {n} seeds x (2 in-process + 2 fresh interpreters "
-          f"with PYTHONHASHSEED 1, 77): all digests equal")
+    print(f"[selftest-determinism] {len(props)} properties x {n} seeds x (2 in-process + 3 fresh interpreters "
+          f"with PYTHONHASHSEED 0, 1, 77): all digests equal")
     return 0
